@@ -414,7 +414,36 @@ func runC03(c *Ctx) {
 				return b.Instrs[0]
 			}
 			sentI, stopI := firstOf(nb.Sent), firstOf(nb.Stopped)
-			refused := explore(nb.At, false, func(i ssa.Instruction) bool {
+			// at capacity nothing can be started: the "pool is full" edge of a counter-against-maximum
+			// test is a legitimate way to the blocking offer (`default: if workers < max { spawn }`)
+			type edge struct{ from, to *ssa.BasicBlock }
+			full := map[edge]bool{}
+			for _, b := range g.at.Parent().Blocks {
+				ifi, isIf := b.Instrs[len(b.Instrs)-1].(*ssa.If)
+				if !isIf {
+					continue
+				}
+				bo, isBo := ifi.Cond.(*ssa.BinOp)
+				if !isBo {
+					continue
+				}
+				op := bo.Op
+				switch {
+				case attackerFieldLoad(bo.Y, "maxWorkers"):
+				case attackerFieldLoad(bo.X, "maxWorkers"):
+					op = map[token.Token]token.Token{token.LSS: token.GTR, token.GTR: token.LSS, token.LEQ: token.GEQ, token.GEQ: token.LEQ, token.EQL: token.EQL, token.NEQ: token.NEQ}[op]
+				default:
+					continue
+				}
+				// op reads `workers op max`
+				switch op {
+				case token.LSS, token.NEQ:
+					full[edge{b, b.Succs[1]}] = true
+				case token.GEQ, token.EQL:
+					full[edge{b, b.Succs[0]}] = true
+				}
+			}
+			refused := exploreWithout(func(from, to *ssa.BasicBlock) bool { return full[edge{from, to}] }, nb.At, false, func(i ssa.Instruction) bool {
 				if i == sentI || i == stopI {
 					return true
 				}
